@@ -215,13 +215,13 @@ func verifHosts(l *roundRobinLoadBalancer) []*Host { return l.hosts.Load().([]*H
 // Request callbacks re-enter the connection layer (a retried request is registered on another
 // connection, which takes that connection's closingMu): they must be called with no lock held.
 //@ iface proxycore.Request.OnClose [C01]
-//@   requires no-lock-held: nolocks()
+//@   requires no-lock-held: nolocks() [C18]
 //@   modifies *
 //@ iface proxycore.Request.OnResult [C01]
-//@   requires no-lock-held: nolocks()
+//@   requires no-lock-held: nolocks() [C18]
 //@   modifies *
 //@ iface proxycore.Request.Execute [C01]
-//@   requires no-lock-held: nolocks()
+//@   requires no-lock-held: nolocks() [C18]
 //@   modifies *
 //@ iface proxycore.Request.Frame
 //@   modifies nothing
@@ -237,7 +237,7 @@ func verifHosts(l *roundRobinLoadBalancer) []*Host { return l.hosts.Load().([]*H
 //@ func proxycore.pendingRequests.closing [C01]
 //@   trusted
 //@   requires p != nil
-//@   requires no-lock-held: nolocks()
+//@   requires no-lock-held: nolocks() [C18]
 //@   modifies *
 
 // addToPending: under the read lock, a closing connection refuses; otherwise the request gets a
@@ -335,6 +335,7 @@ func verifHosts(l *roundRobinLoadBalancer) []*Host { return l.hosts.Load().([]*H
 // started). Handshake is brought under contract only for the lock/immutability discipline.
 //@ func proxycore.ClientConn.SendAndReceive [C01, C02]
 //@   requires c != nil && c.closingMu != nil && c.pending != nil && c.conn != nil
+//@   ensures decoded-or-error: result1 == nil && result0 != nil ==> result0.Body != nil && result0.Body.Message != nil && (typeis(result0.Body.Message, *message.RowsResult) ==> rowsOK(as(result0.Body.Message, *message.RowsResult))) [C17]
 //@   modifies c.inflight, c.pending.$has, c.pending.$tag, c.pending.$val
 
 //@ loop proxycore.ClientConn.Handshake #1
@@ -505,3 +506,102 @@ func verifHosts(l *roundRobinLoadBalancer) []*Host { return l.hosts.Load().([]*H
 // case 3 of the five-way select is refreshTimer.C
 //@   after select#* set connectTimer.$armed = connectTimer.$armed && !(selcases == 2 && selidx == 1); refreshTimer.$armed = refreshTimer.$armed && !(selcases == 5 && selidx == 3)
 //@   modifies *, any(time.Timer).$armed
+
+// ---------------------------------------------------------------------------------------------
+// C17 / C16: the control connection's view of the backend - result sets and the host list.
+// A backend (or whatever answers on its address) may send any well-framed reply: a VOID or PREPARED
+// result where rows are expected, rows without usable columns, an empty peers table. None of that may
+// take the process down; the connection attempt fails with an error instead.
+// Assumed about the frame codec (library): a decoded RowsResult has Metadata, and every row has as
+// many values as there are column specifications when these are present.
+// ---------------------------------------------------------------------------------------------
+
+//@ macro rowsOK(r) = r != nil && r.Metadata != nil && forall(k, 0, len(r.Data), len(r.Data[k]) >= len(r.Metadata.Columns)) && forall(k, 0, len(r.Metadata.Columns), r.Metadata.Columns[k] != nil)
+
+//@ type proxycore.ResultSet
+//@   invariant rowsOK(self.result) && self.columnIndexes != nil && mapAll(self.columnIndexes, k, v, 0 <= v && v < len(self.result.Metadata.Columns))
+
+//@ loop proxycore.NewResultSet #1
+//@   invariant columnIndexes != nil && fresh(columnIndexes) && mapAll(columnIndexes, k, v, 0 <= v && v <= rangeindex)
+
+//@ func proxycore.NewResultSet [C17]
+//@   requires rowsOK(rows)
+//@   ensures result != nil && fresh(result) && inv(result) && result.result == rows
+//@   modifies nothing
+
+//@ func proxycore.ResultSet.RowCount [C17]
+//@   requires rs.result != nil
+//@   ensures result == len(rs.result.Data)
+//@   modifies nothing
+
+//@ func proxycore.ResultSet.Row [C17]
+//@   requires rs != nil && inv(rs) && 0 <= i && i < len(rs.result.Data)
+//@   ensures result.resultSet == rs && result.row == rs.result.Data[i]
+//@   modifies nothing
+
+//@ macro rowOK(r) = r.resultSet != nil && inv(r.resultSet) && len(r.row) >= len(r.resultSet.result.Metadata.Columns)
+
+//@ func codecs.DecodeType
+//@   trusted
+//@   modifies nothing
+
+//@ func proxycore.Row.ByPos [C17]
+//@   requires rowOK(r) && 0 <= i && i < len(r.resultSet.result.Metadata.Columns)
+//@   modifies nothing
+
+//@ func proxycore.Row.ByName [C17]
+//@   requires rowOK(r)
+//@   modifies nothing
+
+//@ func proxycore.Row.StringByName [C17]
+//@   requires rowOK(r)
+//@   modifies nothing
+
+//@ func proxycore.Row.InetByName [C17]
+//@   requires rowOK(r)
+//@   modifies nothing
+
+//@ func proxycore.Row.UUIDByName [C17]
+//@   requires rowOK(r)
+//@   modifies nothing
+
+// QueryFrame: on success the caller gets a result set it can use (also when the backend answered
+// with a VOID or PREPARED result), otherwise an error.
+//@ func proxycore.ClientConn.QueryFrame [C17]
+//@   requires c != nil && c.closingMu != nil && c.pending != nil && c.conn != nil && c.codec != nil && frm != nil
+//@   ensures usable-or-error: result1 == nil ==> result0 != nil && inv(result0)
+//@   modifies c.inflight, c.pending.$has, c.pending.$tag, c.pending.$val
+
+//@ func proxycore.ClientConn.Query [C17]
+//@   requires c != nil && c.closingMu != nil && c.pending != nil && c.conn != nil && c.codec != nil
+//@   ensures usable-or-error: result1 == nil ==> result0 != nil && inv(result0)
+//@   modifies c.inflight, c.pending.$has, c.pending.$tag, c.pending.$val
+
+//@ func proxycore.NewHostFromRow [C17]
+//@   requires rowOK(row)
+//@   ensures result1 == nil ==> result0 != nil && fresh(result0) && result0.Endpoint == endpoint
+//@   modifies nothing
+
+//@ iface proxycore.EndpointResolver.NewEndpoint
+//@   ensures result1 == nil ==> result0 != nil
+//@   modifies nothing
+
+//@ func proxycore.defaultEndpointResolver.NewEndpoint [C17]
+//@   requires r != nil && rowOK(row)
+//@   ensures result1 == nil ==> result0 != nil
+//@   modifies nothing
+
+//@ loop proxycore.Cluster.addHosts #1
+//@   invariant 0 <= i && len(hosts) >= len(old_hosts) && forall(k, 0, len(hosts), hosts[k] != nil)
+//@   invariant fresh(hosts) || samearray(hosts, old_hosts)
+
+//@ func proxycore.Cluster.addHosts [C17]
+//@   requires c != nil && c.config.Resolver != nil && c.logger != nil && rs != nil && inv(rs) && forall(k, 0, len(hosts), hosts[k] != nil)
+//@   ensures forall(k, 0, len(result), result[k] != nil) && len(result) >= len(hosts)
+//@   modifies hosts[*]
+
+// queryHosts: whatever the backend answers, the result is an error or a non-empty host list.
+//@ func proxycore.Cluster.queryHosts [C17, C16]
+//@   requires c != nil && c.config.Resolver != nil && c.logger != nil && conn != nil && conn.closingMu != nil && conn.pending != nil && conn.conn != nil && conn.codec != nil
+//@   ensures hosts-or-error: err == nil ==> len(hosts) > 0 && forall(k, 0, len(hosts), hosts[k] != nil)
+//@   modifies *, conn.pending.$has, conn.pending.$tag, conn.pending.$val
